@@ -34,7 +34,9 @@ def gen_ast(rng, h, depth, allow_ref=True):
     if rng.chance(0.62):
         op = rng.wpick([('+', 4), ('-', 4), ('*', 4), ('/', 2), ('**', 3)])
         if op == '**':
-            mode = rng.wpick([('const_exp', 6), ('const_base', 1), ('var_var', 1)])
+            mode = rng.wpick([('const_exp', 6), ('const_base', 1), ('var_var', 1), ('param_exp', 2 if h.p else 0)])
+            if mode == 'param_exp':
+                return ['**', gen_ast(rng, h, depth - 1, allow_ref), ['p', rng.pick(sorted(h.p))]]
             if mode == 'const_exp':
                 e = rng.pick([2.0, 3.0, 0.5, 1.852, -1.0, 1.0, 0.0, 2.0])
                 return ['**', gen_ast(rng, h, depth - 1, allow_ref), ['c', e, 'int'] if (e == int(e) and rng.chance(0.5)) else ['c', e]]
@@ -65,7 +67,7 @@ def gen_history(rng):
     nv = rng.irange(2, 6)
     for i in range(nv):
         emit({'op': 'var', 'id': i, 'val': round(rng.uni(0.2, 3.0) if rng.chance(0.7) else rng.uni(-3.0, 3.0), 4)})
-    for j in range(rng.irange(0, 2)):
+    for j in range(rng.irange(0, 3)):
         emit({'op': 'param', 'id': j, 'val': round(rng.uni(0.3, 2.5), 4)})
     n_ops = rng.irange(6, 30)
     names = 0
@@ -75,7 +77,7 @@ def gen_history(rng):
     while len(ops) < n_ops + nv and guard < 40 * n_ops:
         guard += 1
         k = rng.wpick([('con', 8), ('cond', 4), ('sub', 2), ('cdict', 1), ('cdict_add', 1), ('cdict_del', 1), ('del', 4), ('readd', 2), ('setv', 5),
-                       ('setp', 1), ('eval', 5), ('var', 1), ('dup', 0.5), ('noise', 20 * p_noise), ('on_bound', 2), ('probe_unstructured', 0.5)])
+                       ('setp', 3), ('eval', 5), ('var', 1), ('dup', 0.5), ('noise', 20 * p_noise), ('on_bound', 2), ('probe_unstructured', 0.5)])
         if k == 'var':
             emit({'op': 'var', 'id': len(h.v), 'val': round(rng.uni(0.2, 3.0), 4)})
         elif k == 'sub':
@@ -157,7 +159,7 @@ class C15(Prop):
     id = 'C15'
     engine = 'E3'
     components = COMPONENTS
-    quick_runs = 4000
+    quick_runs = 10000
     thorough_runs = 120000
     chunk = 32
     shrink_budget = 400
